@@ -350,9 +350,10 @@ def post_process(pp, state):
     return state
 
 
-def exported_distribution(tk_circ, raw=None):
-    """The meaning of an exported circuit as the property states it: simulate exactly, post-select,
-    drop the post-selected bits, scale, post-process.  Returns an array of shape (2,)*n_out."""
+def selected_distribution(tk_circ, raw=None, scalar=None):
+    """Exact simulation, post-selection with the recorded post_selection (the post-selected bits are
+    dropped), times the recorded scalar (or `scalar`): array of shape (2,)*(n_bits - n_post_selected),
+    what tk.Circuit.get_counts has to deliver for this circuit, before classical post-processing."""
     raw = simulate_tk(tk_circ) if raw is None else raw
     ps = {int(k): int(v) for k, v in tk_circ.post_selection.items()}
     n_bits = len(tk_circ.bits)
@@ -361,8 +362,13 @@ def exported_distribution(tk_circ, raw=None):
     for bits, p in raw.items():
         if all(bits[i] == v for i, v in ps.items()):
             state[tuple(bits[i] for i in keep)] += p
-    state = state * tk_circ.scalar
-    return post_process(tk_circ.post_processing, state)
+    return state * (tk_circ.scalar if scalar is None else scalar)
+
+
+def exported_distribution(tk_circ, raw=None, scalar=None):
+    """The meaning of an exported circuit as the property states it: simulate exactly, post-select,
+    drop the post-selected bits, scale, post-process.  Returns an array of shape (2,)*n_out."""
+    return post_process(tk_circ.post_processing, selected_distribution(tk_circ, raw, scalar))
 
 
 # --------------------------------------------------------------------------- mock backend
@@ -665,6 +671,198 @@ def gen_spec(rng, max_width=4, max_depth=8, exotic=0.06, max_regs=7, multi=0.08,
         layers.append((box, off))
         cur = cur[:off] + c + cur[off + len(d):]
     return (dom, layers)
+
+
+# --------------------------------------------------------------------------- batches of circuits
+
+BATCH_MODES = ["value", "value", "wire", "wire", "number", "scalar", "pp", "free", "same", "random"]
+
+
+def _batch_prefix(rng, n):
+    """`n` prepared qubits and one to four gates."""
+    layers = [(("ket", tuple(rng.choice([0, 0, 1]) for _ in range(n))), 0)]
+    for _ in range(rng.randint(1, 4)):
+        r = rng.random()
+        if n >= 2 and r < 0.4:
+            box = rng.choice([("gate", "CX"), ("gate", "CX"), ("gate", "CZ"), ("ctrl", "H"),
+                              ("rot", "CRz", rng.randint(-16, 40))])
+            layers.append((box, rng.randrange(n - 1)))
+        elif r < 0.8:
+            layers.append((("gate", rng.choice(["H", "H", "H", "X", "Y", "S"])), rng.randrange(n)))
+        else:
+            layers.append((("rot", rng.choice(["Rx", "Rx", "Rz"]), rng.randint(-16, 40)), rng.randrange(n)))
+    return layers
+
+
+def _batch_kinds(rng, n):
+    return [rng.choice(["bra0", "bra1", "m", "m", "d"]) for _ in range(n)]
+
+
+def _batch_ending(kinds, order):
+    """Every qubit j ends as kinds[j] (bra0 / bra1: post-selected, m: measured, d: discarded); the
+    boxes are applied in the order `order` (the tket bits are allocated in that order)."""
+    layers, alive = [], ["q"] * len(kinds)
+    for j in order:
+        off = sum(1 for x in alive[:j] if x)
+        if kinds[j] == "m":
+            layers.append((("measure", 1, 1, 0), off))
+            alive[j] = "b"
+        elif kinds[j] == "d":
+            layers.append((("discard", "q"), off))
+            alive[j] = None
+        else:
+            layers.append((("bra", (int(kinds[j][-1]),)), off))
+            alive[j] = None
+    return layers, "".join(x for x in alive if x)
+
+
+def _batch_pp(rng, n_bits):
+    """Zero to two classical boxes on the measured bits, as (name, offset draw in [0, 1))."""
+    out = []
+    for _ in range(rng.choice([0, 1, 1, 2])):
+        opts = (["NOT", "NOT", "unbits0", "unbits1", "FAN"] if n_bits >= 1 else []) + \
+            (["swap", "swap", "XOR", "CNOTc", "AND"] if n_bits >= 2 else [])
+        if not opts:
+            break
+        name = rng.choice(opts)
+        out.append((name, rng.random()))
+        n_bits += {"unbits0": -1, "unbits1": -1, "FAN": 1, "XOR": -1, "AND": -1}.get(name, 0)
+    return out
+
+
+def _batch_scalar(rng):
+    mixed = rng.choice([0, 0, 1])
+    return (rng.choice(MIXED_SCALARS) if mixed else rng.randrange(len(SCALARS)), mixed, rng.choice(["first", "ket", "last"]))
+
+
+def _batch_member(rng, n=None):
+    n = rng.choice([1, 2, 2, 3, 3]) if n is None else n
+    order = list(range(n))
+    rng.shuffle(order)
+    return dict(n=n, prefix=_batch_prefix(rng, n), kinds=_batch_kinds(rng, n), order=order,
+                scalar=_batch_scalar(rng) if rng.random() < 0.35 else None,
+                pp=_batch_pp(rng, n))
+
+
+def batch_member_spec(m):
+    """The circuit spec of a structured batch member (see `gen_batch`)."""
+    layers = list(m["prefix"])
+    end, cur = _batch_ending(m["kinds"], m["order"])
+    layers += end
+    for name, r in m["pp"]:
+        n_in = {"swap": 2, "unbits0": 1, "unbits1": 1}.get(name) or CGATES[name][0]
+        if len(cur) < n_in:
+            continue
+        off = int(r * (len(cur) - n_in + 1))
+        if name == "swap":
+            layers.append((("swap", "b", "b"), off))
+        elif name.startswith("unbits"):
+            layers.append((("bits", (int(name[-1]),), 1), off))
+            cur = cur[1:]
+        else:
+            layers.append((("cgate", name), off))
+            cur = "b" * (len(cur) - n_in + CGATES[name][1])
+    if m["scalar"] is not None:
+        k, mixed, where = m["scalar"]
+        box = ("scalar", k, mixed)
+        if where == "first":
+            layers.insert(0, (box, 0))
+        elif where == "ket":
+            layers.insert(1, (box, m["n"]))
+        else:
+            layers.append((box, len(cur)))
+    return ("", layers)
+
+
+def n_bras(m):
+    return sum(1 for k in m["kinds"] if k.startswith("bra"))
+
+
+def gen_batch(rng, ok=lambda spec: True, info=None):
+    """One to four circuit specs to be evaluated in ONE call `c.eval(*others, backend=b)` /
+    `c.get_counts(*others, backend=b)` / `t.get_counts(*ts, backend=b)`.  Modes (what differs
+    between the first circuit and the others):
+      value    the value of at least one post-selection (same wires, same number)
+      wire     which qubits are post-selected / measured / discarded (same number of each)
+      number   the number of post-selected qubits
+      scalar   only the scalar (one of them may have none)
+      pp       only the classical post-processing
+      free     everything, the number of qubits too
+      same     nothing
+      random   unrelated circuits of `gen_spec`
+    In value / wire / number / pp the scalar (if any) is shared and, three times out of ten, the
+    gates before the ending are drawn afresh for every circuit.  `ok(spec)` filters members (the
+    caller keeps circuits inside the proved fragment of the export: a batch failure is then a failure
+    of the batch glue); a member of mode `random` is re-drawn up to 8 times, others are dropped."""
+    mode = rng.choice(BATCH_MODES)
+    k = rng.choice([1, 2, 2, 2, 3, 3, 4])
+    if info is not None:
+        info.update(mode=mode, size=k)
+
+    def attempt(make):
+        for _ in range(8):
+            spec = make()
+            if ok(spec):
+                return spec
+        return None
+
+    if mode == "random":
+        specs = [attempt(lambda: gen_spec(random_of(rng), max_width=3, max_depth=6, exotic=0.0, multi=0.0))
+                 for _ in range(k)]
+        return [s for s in specs if s is not None]
+    base = _batch_member(rng)
+    if mode == "value" and not n_bras(base):
+        base["kinds"][rng.randrange(base["n"])] = rng.choice(["bra0", "bra1"])
+    if mode == "wire":
+        if base["n"] == 1:
+            base = _batch_member(rng, rng.choice([2, 3]))
+        j = rng.randrange(base["n"])
+        base["kinds"][j] = rng.choice(["bra0", "bra1"])
+        base["kinds"][(j + 1) % base["n"]] = rng.choice(["m", "m", "d"])
+    if mode == "pp" and "m" not in base["kinds"]:
+        base["kinds"][rng.randrange(base["n"])] = "m"
+    members = [base]
+    fresh = rng.random() < 0.3
+    for _ in range(k - 1):
+        m = dict(base, kinds=list(base["kinds"]), order=list(base["order"]))
+        if mode == "free":
+            m = _batch_member(rng)
+        elif mode == "value":
+            bras = [j for j, x in enumerate(m["kinds"]) if x.startswith("bra")]
+            for j in rng.sample(bras, rng.randint(1, len(bras))):
+                m["kinds"][j] = "bra1" if m["kinds"][j] == "bra0" else "bra0"
+        elif mode == "wire":
+            for _ in range(6):
+                rng.shuffle(m["kinds"])
+                if m["kinds"] != base["kinds"]:
+                    break
+            if rng.random() < 0.5:
+                rng.shuffle(m["order"])
+        elif mode == "number":
+            for _ in range(6):
+                m["kinds"] = _batch_kinds(rng, m["n"])
+                if n_bras(m) != n_bras(base):
+                    break
+        elif mode == "scalar":
+            for _ in range(6):
+                m["scalar"] = _batch_scalar(rng) if rng.random() < 0.8 else None
+                if m["scalar"] != base["scalar"]:
+                    break
+        elif mode == "pp":
+            for _ in range(6):
+                m["pp"] = _batch_pp(rng, m["n"])
+                if m["pp"] != base["pp"]:
+                    break
+        if fresh and mode in ("value", "wire", "number", "pp"):
+            m["prefix"] = _batch_prefix(rng, m["n"])
+        members.append(m)
+    specs = [batch_member_spec(m) for m in members]
+    return [s for s in specs if ok(s)]
+
+
+def random_of(rng):
+    import random
+    return random.Random(rng.getrandbits(64))
 
 
 def spec_str(spec):
